@@ -35,12 +35,17 @@ theorem mask_cfg_documented : Gen.C09.maskCfg = maskCfgDoc := by decide
 
 /-- anchor (implied by `mask_skeleton_documented`, kept as a named fact for the regression of a0240b0): the subtomo ids are
 carried through the same bounds filter as the coordinates -/
-theorem mask_ids_through_filter : Gen.C09.maskIdsThroughFilter = true := by decide
+theorem mask_ids_through_filter : Gen.C09.maskIdsThroughFilter = some true := by decide
 
 /-- `clean_by_tomo_mask` loads `tomo_list` with an effective `sort_angles = False` (`LOAD_TOMO_LIST` in the skeleton is
 `ioutils.tlt_load(tomo_list, sort_angles=False)`): a list read from a FILE reaches the pairing with the masks in the order of
 its lines. Before that repair the effective value was `tlt_load`'s default `True` (`cleanMask_sorted_file_counterexample`). -/
 theorem mask_tomo_list_as_given : Gen.C09.maskTomoFileSorted = false := by decide
+
+/-- a text FILE of tomogram numbers is read with a 64-bit reader (`READ_TOMO_FILE(tomo_list, EXACT_DTYPE)` in the skeleton is
+`ioutils.one_value_per_line_read(tomo_list, data_type=np.float64)`), so every number arrives exactly. Before that repair the file went
+through `tlt_load`, whose reader defaults to float32 (`cleanMask_float32_file_counterexample`). -/
+theorem mask_tomo_file_exact : Gen.C09.maskTomoFileExact = true := by decide
 
 /-- anchor: `tlt_load(input_tlt, sort_angles=True)` — whoever omits the keyword gets sorted values; the translator also checks
 that every sorting call of `tlt_load` sits under `if sort_angles:` (anchor `tlt_load:nothing is sorted unless sort_angles holds`) -/
@@ -140,7 +145,10 @@ theorem mask_skeleton_documented : Gen.C09.maskSkeleton = [
   "def(self, tomo_list, tomo_masks, inplace=True, output_file=None)",
   "if not isinstance(tomo_list, (str, list, np.ndarray)):",
   "    tomo_list = np.atleast_1d(np.asarray(tomo_list))",
-  "v1 = LOAD_TOMO_LIST(tomo_list)",
+  "if isinstance(tomo_list, str) and (not tomo_list.endswith(('.mdoc', '.xml'))):",
+  "    v1 = READ_TOMO_FILE(tomo_list, EXACT_DTYPE)",
+  "else:",
+  "    v1 = LOAD_TOMO_LIST(tomo_list)",
   "v2 = True",
   "if isinstance(tomo_masks, list):",
   "    if len(v1) != len(tomo_masks):",
@@ -251,6 +259,110 @@ theorem binarize_skeleton_documented : Gen.C09.binarizeSkeleton = [
   "v1 = CMP_BIN(input_map, threshold).astype(int)",
   "return v1"] := rfl
 
+/-! helper bodies the four filters run through (translator anchors; pinned since round 7) -/
+
+/-- `Motl.get_motl_subset`: for every listed value, in list order, the rows whose feature EQUALS it (`==`, no tolerance), copied and
+concatenated — no row dropped, none merged; index reset on request -/
+theorem subset_skeleton_documented : Gen.C09.subsetSkeleton = [
+  "def(self, feature_values, feature_id='tomo_id', return_df=False, reset_index=True)",
+  "feature_values = np.atleast_1d(np.asarray(feature_values))",
+  "v1 = Motl.create_empty_motl_df()",
+  "for v2 in feature_values:",
+  "    v3 = self.df.loc[self.df[feature_id] == v2].copy()",
+  "    v1 = pd.concat([v1, v3])",
+  "if reset_index:",
+  "    v1 = v1.reset_index(drop=True)",
+  "if return_df:",
+  "    return v1",
+  "else:",
+  "    return Motl(motl_df=v1)"] := rfl
+
+/-- `Motl.get_unique_values`: `Series.unique()` — order of first appearance -/
+theorem unique_values_skeleton_documented : Gen.C09.uniqueValuesSkeleton = [
+  "def(self, feature_id)",
+  "return self.df.loc[:, feature_id].unique()"] := rfl
+
+/-- `Motl.load`: a Motl instance becomes a NEW EmMotl holding a copy of its frame -/
+theorem motl_load_skeleton_documented : Gen.C09.motlLoadSkeleton = [
+  "def(cls, input_motl, motl_type='emmotl')",
+  "if isinstance(input_motl, Motl):",
+  "    return copy.deepcopy(input_motl)",
+  "if motl_type == 'emmotl':",
+  "    return EmMotl(input_motl)",
+  "elif motl_type == 'relion':",
+  "    return RelionMotl(input_motl)",
+  "elif motl_type == 'stopgap':",
+  "    return StopgapMotl(input_motl)",
+  "elif motl_type == 'dynamo':",
+  "    return DynamoMotl(input_motl)",
+  "else:",
+  "    raise UserInputError(MSG)"] := rfl
+
+/-- `ioutils.tlt_load`: ndarray as given, list through `np.asarray`, file values sorted only under `if sort_angles:` -/
+theorem tlt_load_skeleton_documented : Gen.C09.tltLoadSkeleton = [
+  "def(input_tlt, sort_angles=True)",
+  "if isinstance(input_tlt, np.ndarray):",
+  "    if input_tlt.size == 0:",
+  "        raise ValueError(MSG)",
+  "    else:",
+  "        return input_tlt",
+  "elif isinstance(input_tlt, list):",
+  "    if len(input_tlt) == 0:",
+  "        raise ValueError(MSG)",
+  "    else:",
+  "        return np.asarray(input_tlt)",
+  "elif isinstance(input_tlt, str):",
+  "    if input_tlt.endswith('.mdoc'):",
+  "        v1 = mdoc.Mdoc(input_tlt)",
+  "        v2 = v1.get_image_feature('TiltAngle').values",
+  "    elif input_tlt.endswith('.xml'):",
+  "        v2 = get_data_from_warp_xml(input_tlt, 'Angles', node_level=1)",
+  "    else:",
+  "        v2 = one_value_per_line_read(input_tlt)",
+  "    if sort_angles:",
+  "        v2 = np.sort(v2)",
+  "    return v2",
+  "else:",
+  "    raise ValueError(MSG)"] := rfl
+
+/-- `ioutils.one_value_per_line_read`: first column of a whitespace-separated file, read with dtype `data_type` (default float32) -/
+theorem one_value_per_line_skeleton_documented : Gen.C09.oneValuePerLineSkeleton = [
+  "def(file_path, data_type=np.float32)",
+  "if not os.path.isfile(file_path):",
+  "    raise ValueError(MSG)",
+  "try:",
+  "    v1 = pd.read_csv(file_path, header=None, dtype=data_type, sep='\\\\s+')",
+  "    if v1.empty:",
+  "        raise ValueError(MSG)",
+  "except pd.errors.EmptyDataError:",
+  "    raise ValueError(MSG)",
+  "return v1.iloc[:, 0].values"] := rfl
+
+/-- `cryomap.read`: file data transposed `(2, 1, 0)` iff `transpose` (default), arrays copied as given -/
+theorem read_skeleton_documented : Gen.C09.readSkeleton = [
+  "def(input_map, transpose=True, data_type=None)",
+  "if isinstance(input_map, str):",
+  "",
+  "    def valid_mrc(filename):",
+  "        v1 = '\\\\.(mrc|ali|rec|st)(\\\\.\\\\d+)?$'",
+  "        return bool(re.search(v1, filename))",
+  "    if valid_mrc(input_map):",
+  "        v2 = mrcfile.open(input_map).data",
+  "    elif input_map.endswith('.em'):",
+  "        v2 = emfile.read(input_map)[1]",
+  "    else:",
+  "        raise ValueError(MSG)",
+  "    if transpose:",
+  "        v2 = v2.transpose(2, 1, 0)",
+  "elif isinstance(input_map, np.ndarray):",
+  "    v2 = np.array(input_map)",
+  "else:",
+  "    raise ValueError(MSG)",
+  "v2 = np.array(v2, copy=True)",
+  "if data_type is not None:",
+  "    v2 = v2.astype(data_type)",
+  "return v2"] := rfl
+
 section generic
 variable {α : Type} [Add α] [Sub α] [Mul α] [LT α] [LE α] [DecidableLT α] [DecidableLE α] [DecidableEq α]
   [NatCast α] [OfNat α 0]
@@ -290,6 +402,15 @@ run on the caller's list in the caller's order** -/
 theorem cleanMaskArgCode_eq (tr : α → Int) (ta : TomoArg α) (arg : MaskArg) (l : Motl α) :
     cleanMaskArgCode tr ta arg l = cleanMask tr ta.values arg l := by
   unfold cleanMaskArgCode cleanMaskArgWith cleanMask; rw [mask_cfg_documented, mask_tomo_list_as_given, tltLoad_false]
+
+theorem readWith_id (ta : TomoArg α) : ta.readWith id = ta := by cases ta <;> simp [TomoArg.readWith]
+
+/-- **today's `clean_by_tomo_mask` INCLUDING the reader of a tomogram file** is the documented loop on the caller's numbers in the
+caller's order: no sorting (`mask_tomo_list_as_given`), no rounding (`mask_tomo_file_exact`), whatever `rd32` a 32-bit reader would be -/
+theorem cleanMaskFileCode_eq (rd32 : α → α) (tr : α → Int) (ta : TomoArg α) (arg : MaskArg) (l : Motl α) :
+    cleanMaskFileCode rd32 tr ta arg l = cleanMask tr ta.values arg l := by
+  unfold cleanMaskFileCode
+  rw [mask_tomo_file_exact, if_pos rfl, readWith_id, cleanMaskArgCode_eq]
 
 /-! ## remove_out_of_bounds_particles -/
 
@@ -1155,7 +1276,7 @@ theorem cleanMask_needs_unique_ids :
   · revert ht; decide
   · revert hv; decide
 
-/-- **The remaining hypothesis of `cleanMask_spec` is necessary.** Two particles of ONE tomogram carry
+/-- **Witness of the open finding C09-K2** (and: the remaining hypothesis of `cleanMask_spec` is necessary). Two particles of ONE tomogram carry
 subtomo id 1, the first on the zero voxel, the second on a non-zero voxel: the code removes both, the
 statement keeps the second; the list is not `MaskWellFormed`, and it is not `UniqueIdsWithinTomograms`. -/
 theorem cleanMask_needs_unique_ids_within_tomogram :
@@ -1184,6 +1305,21 @@ theorem cleanMask_sorted_file_counterexample :
     (cleanMaskArg id (.fromFile [7, 2]) (.perTomo [wOnes, wZeros]) [wP 7 1 1, wP 2 2 1]).toOption = some [wP 7 1 1] ∧
     (cleanMaskStmt id (TomoArg.fromFile [7, 2]).values (.perTomo [wOnes, wZeros]) [wP 7 1 1, wP 2 2 1]).toOption = some [wP 7 1 1] := by
   refine ⟨by decide, by decide, by decide, by decide⟩
+
+/-- float32 has no odd integers above 2^24: 20230115 (a date-style tomogram number) is stored as 20230116, 16777217 as 16777216;
+numbers below 2^24 and representable neighbours are exact -/
+theorem f32Int_examples :
+    f32Int 20230115 = 20230116 ∧ f32Int 16777217 = 16777216 ∧ f32Int 16777215 = 16777215 ∧ f32Int 20230116 = 20230116 ∧
+    f32Int 204 = 204 ∧ f32Int 999999999 = 1000000000 ∧ f32Int (-20230115) = -20230116 := by decide
+
+/-- **Witness of the defect repaired by reading the tomogram FILE with a 64-bit reader.** One particle of tomogram 20230115 on a
+zero voxel. With the number handed over in a list the code removes it (as the statement demands); read from a file through the float32
+reader the listed tomogram became 20230116, matched no particle, and the particle was kept. -/
+theorem cleanMask_float32_file_counterexample :
+    (cleanMaskArg id ((TomoArg.fromFile [20230115]).readWith f32Int) (.perTomo [wZeros]) [wP 20230115 1 1]).toOption = some [wP 20230115 1 1] ∧
+    (cleanMaskArg id ((TomoArg.asGiven [20230115]).readWith f32Int) (.perTomo [wZeros]) [wP 20230115 1 1]).toOption = some [] ∧
+    (cleanMaskStmt id (TomoArg.fromFile [20230115]).values (.perTomo [wZeros]) [wP 20230115 1 1]).toOption = some [] := by
+  refine ⟨by decide, by decide, by decide⟩
 
 /-- **Regression witness of defect D11 (repaired by a0240b0).** One particle beyond the mask volume in
 front of a particle on the zero voxel: the old code removes the WRONG particle (index into the
